@@ -234,6 +234,7 @@ def history_cases(draw):
         ops.append({"op": "add", "form": draw(st.sampled_from(["scalar", "1d", "2d", "list"])),
                     "use_proposal": draw(st.booleans()), "x": [draw(st.floats(-2, 2)) for _ in range(d)]})
     return {"seed": draw(st.integers(0, 2**31)), "d": d, "x0": x0, "with_err": draw(st.booleans()),
+            "x_dtype": draw(st.sampled_from(["float", "float", "int"])), "y_dtype": draw(st.sampled_from(["float", "float", "int"])),
             "acq": draw(st.sampled_from(["EI", "UCB", "MaxVar"])), "x_form": draw(st.sampled_from(["2d", "1d", "list"])),
             "init_optimizer": draw(st.sampled_from(["bfgs", "bfgs", "diffev"])), "ops": ops}
 
@@ -253,11 +254,19 @@ def body_history(case, ctx):
     if len({tuple(r) for r in case["x0"]}) < len(case["x0"]):
         raise Inconclusive("duplicate initial points")
     X0 = np.array(case["x0"], dtype=float).reshape(-1, d)
+    if case.get("x_dtype") == "int":
+        # integer-valued initial design held in an integer array (as in the package's own examples)
+        X0 = np.round(X0 * 4).astype(np.int64)
+        if len({tuple(r) for r in X0.tolist()}) < X0.shape[0]:
+            raise Inconclusive("duplicate initial points")
     y0 = np.array([objective(r) for r in X0])
+    if case.get("y_dtype") == "int":
+        y0 = np.round(y0 * 3).astype(np.int64)
     if np.ptp(y0) < 1e-6 or np.any(np.ptp(X0, axis=0) < 1e-3):
         raise Inconclusive("degenerate initial data")
     err0 = np.full(y0.size, 0.05) if case["with_err"] else None
-    bounds = [(-2.0, 2.0)] * d
+    lim = 8.0 if case.get("x_dtype") == "int" else 2.0
+    bounds = [(-lim, lim)] * d
     if d == 1 and case["x_form"] == "1d":
         x_in = X0[:, 0].copy()
     elif case["x_form"] == "list":
@@ -278,8 +287,8 @@ def body_history(case, ctx):
     for name, arr, sn in zip(("x", "y", "y_err"), (x_in, y_in, err_in), snaps):
         if not unchanged(arr, sn):
             raise Violation(f"caller-array:init:{name}", f"constructor changed the caller's {name}: shape {sn[1]} -> {arr.shape}")
-    model_x = [r.copy() for r in X0]
-    model_y = list(y0)
+    model_x = [np.asarray(r, dtype=float) for r in X0]
+    model_y = [float(v) for v in y0]
     last = None
     n_add = n_prop = 0
     for op in case["ops"]:
@@ -294,8 +303,8 @@ def body_history(case, ctx):
                     p = np.atleast_1d(np.asarray(prop, dtype=float))
                     if p.shape != (d,):
                         raise Violation("proposal-shape", f"proposal {prop!r} in {d} dimensions")
-                    if np.any(p < -2.0) or np.any(p > 2.0) or not np.all(np.isfinite(p)):
-                        raise Violation(f"proposal-bounds:{op['optimizer'] or case['init_optimizer']}", f"proposal {p} outside the search box [-2, 2]^{d}")
+                    if np.any(p < -lim) or np.any(p > lim) or not np.all(np.isfinite(p)):
+                        raise Violation(f"proposal-bounds:{op['optimizer'] or case['init_optimizer']}", f"proposal {p} outside the search box [-{lim}, {lim}]^{d}")
                     last = p
                     n_prop += 1
                 else:
@@ -344,6 +353,7 @@ def body_history(case, ctx):
     ctx.event(f"d={d}")
     ctx.event(f"adds={n_add}")
     ctx.event("x_form=" + case["x_form"])
+    ctx.event("x_dtype=" + case.get("x_dtype", "float") + ",y_dtype=" + case.get("y_dtype", "float"))
     for op in case["ops"]:
         if op["op"] == "propose":
             ctx.event(f"propose={op['optimizer']}")
